@@ -383,6 +383,83 @@ Proof.
   rewrite E at 1. rewrite D. now rewrite <- !app_assoc.
 Qed.
 
+(* the browser side: a value of that shape is never a CORS-safelisted Content-Type *)
+
+Lemma space_not_token c : py_isspace c = true -> is_token_char c = false /\ (c =? 47) = false.
+Proof.
+  unfold py_isspace, is_token_char, is_ascii_alpha, is_upper, is_lower_az, is_digit. intros H.
+  split; lia.
+Qed.
+
+Lemma http_lstrip_keeps m x n :
+  is_http_ws x = false -> exists m', http_lstrip (m ++ x :: n) = m' ++ x :: n.
+Proof.
+  intros X. induction m as [|c m [m' IH]]; cbn.
+  - rewrite X. now exists [].
+  - destruct (is_http_ws c); [now exists m'|]. now exists (c :: m).
+Qed.
+
+Lemma http_rstrip_keeps a x b :
+  is_http_ws x = false -> exists b', http_rstrip (a ++ x :: b) = a ++ x :: b'.
+Proof.
+  intros X. unfold http_rstrip. rewrite rev_app_distr. cbn [rev]. rewrite <- app_assoc. cbn [app].
+  destruct (http_lstrip_keeps (rev b) x (rev a) X) as [m' ->].
+  exists (rev m'). rewrite rev_app_distr. cbn [rev]. rewrite rev_involutive, <- app_assoc. reflexivity.
+Qed.
+
+Lemma http_lstrip_spaces w rest :
+  forallb py_isspace w = true ->
+  http_lstrip (w ++ app_json ++ rest) = app_json ++ rest \/
+  exists c t, http_lstrip (w ++ app_json ++ rest) = c :: t /\ py_isspace c = true /\ is_http_ws c = false.
+Proof.
+  induction w as [|c w IH]; cbn [app forallb]; intros H.
+  - left. reflexivity.
+  - apply andb_true_iff in H. destruct H as [H1 H2]. cbn [http_lstrip].
+    destruct (is_http_ws c) eqn:E; [now apply IH|]. right. exists c, (w ++ app_json ++ rest). auto.
+Qed.
+
+Lemma shape_not_safelisted w1 w2 tail :
+  forallb py_isspace w1 = true ->
+  cors_safelisted_ctype (w1 ++ app_json ++ w2 ++ tail) = false.
+Proof.
+  intros F1. unfold cors_safelisted_ctype, mime_essence.
+  destruct (http_lstrip_spaces w1 (w2 ++ tail) F1) as [->|(c & t & -> & SP & NW)].
+  - (* the value starts with application/json *)
+    change (app_json ++ w2 ++ tail)
+      with ([97; 112; 112; 108; 105; 99; 97; 116; 105; 111; 110; 47; 106; 115; 111] ++ 110 :: (w2 ++ tail)).
+    destruct (http_rstrip_keeps [97; 112; 112; 108; 105; 99; 97; 116; 105; 111; 110; 47; 106; 115; 111]
+                110 (w2 ++ tail) eq_refl) as [b' ->].
+    cbn [app until_c after_c Z.eqb Pos.eqb].
+    cbn [nonempty forallb is_token_char is_ascii_alpha is_upper is_lower_az is_digit
+         Z.leb Z.eqb Z.compare Pos.compare Pos.compare_cont Pos.eqb andb orb].
+    change (106 :: 115 :: 111 :: 110 :: until_c 59 b') with ([106; 115; 111] ++ 110 :: until_c 59 b').
+    destruct (http_rstrip_keeps [106; 115; 111] 110 (until_c 59 b') eq_refl) as [b'' ->].
+    cbn [app].
+    destruct (nonempty _ && forallb is_token_char _); [|reflexivity].
+    reflexivity.
+  - (* a blank that is not HTTP whitespace comes first: not a token, the parse fails *)
+    destruct (http_rstrip_keeps [] c t NW) as [b' E]. cbn [app] in E. rewrite E.
+    destruct (space_not_token c SP) as [NT N47].
+    cbn [until_c after_c]. rewrite N47.
+    destruct (after_c 47 b'); [|reflexivity].
+    cbn [nonempty forallb andb]. rewrite NT. reflexivity.
+Qed.
+
+(* T1, browser form: with protection on, a POST whose Content-Type a browser would send
+   without a preflight (a CORS-safelisted one) is never executed *)
+Lemma post_gate_not_safelisted r v :
+  r_kind r = Post -> r_csrf r = true -> reaches_core (handle r) = true ->
+  r_ctype r = Some v -> cors_safelisted_ctype v = false.
+Proof.
+  intros K C H V. destruct (post_gate_shape r K C H) as (v' & w1 & w2 & tail & E & -> & F1 & _).
+  rewrite V in E. injection E as ->. now apply shape_not_safelisted.
+Qed.
+
+Example nonvac_safelisted :
+  cors_safelisted_ctype ([32] ++ [84;69;88;84;47;80;108;97;105;110] ++ [32;59;32;120]) = true /\
+  cors_safelisted_ctype ct_urlencoded = true /\ cors_safelisted_ctype app_json = false.
+Proof. vm_compute. auto. Qed.
+
 Example nonvac_post_gate_shape :
   exists v, media_type (Some v) = app_json /\ v <> app_json.
 Proof. exists ([32; 160] ++ app_json ++ [9; 59; 120]). split; [reflexivity|discriminate]. Qed.
